@@ -42,7 +42,13 @@ fn bloom_of(s: &str) -> observe::Bloom {
     match s {
         "off" => observe::Bloom::Off,
         "scaled" => observe::Bloom::Scaled,
-        other => observe::Bloom::Bits(other.trim_start_matches("bits").parse().unwrap_or(1024)),
+        other => {
+            let body = other.trim_start_matches("bits");
+            match body.split_once('k') {
+                Some((n, k)) => observe::Bloom::BitsK(n.parse().unwrap_or(1024), k.parse().unwrap_or(2)),
+                None => observe::Bloom::Bits(body.parse().unwrap_or(1024)),
+            }
+        }
     }
 }
 
